@@ -1,5 +1,5 @@
 (* Proofs_C16.v — output files hold what was computed and reload to the same model. *)
-From Coq Require Import String List Bool Arith Lia Reals Lra.
+From Coq Require Import String List Bool Arith ZArith Lia Reals Lra.
 From TV Require Import Num ListNum ListAux ListNumR Model_C16.
 Import ListNotations.
 Local Open Scope string_scope.
@@ -49,24 +49,39 @@ Example fixed_width_64_truncates :
 Proof. cbv zeta. split; [reflexivity|]. intros H. apply (f_equal String.length) in H. discriminate. Qed.
 
 (* ---------------- (B) spectrum dictionaries -------------------------------------- *)
-Theorem native_tau_iff_heavy (b : bkind) (sz : osize) : In "native_tau" (spectrum_keys b sz) <-> sz = Heavy.
-Proof. destruct b; destruct sz; cbn; split; intros H; try reflexivity; try discriminate;
-  repeat (destruct H as [H|H]; [discriminate|]); try contradiction; auto 20. Qed.
+Theorem native_tau_iff (b : bkind) (sz : Z) : In "native_tau" (spectrum_keys b sz) <-> (light < sz)%Z.
+Proof. unfold spectrum_keys. destruct b; destruct (Z.ltb_spec light sz) as [H|H];
+    try (destruct (Z.ltb_spec lighter sz) as [H1|H1]); unfold light, lighter in *; cbn; split; intros H0; try lia;
+    repeat (destruct H0 as [H0|H0]; [discriminate|]); try contradiction; auto 20. Qed.
 
-Theorem binned_tau_iff (b : bkind) (sz : osize) :
-  In "binned_tau" (spectrum_keys b sz) <-> (b <> BNative /\ sz <> Lighter).
-Proof. destruct b; destruct sz; cbn; split; intros H;
-  try (destruct H as [H1 H2]; contradiction);
-  try (repeat (destruct H as [H|H]; [discriminate|]); contradiction);
-  try (split; discriminate); auto 20. Qed.
+Theorem binned_tau_iff (b : bkind) (sz : Z) :
+  In "binned_tau" (spectrum_keys b sz) <-> (b <> BNative /\ (lighter < sz)%Z).
+Proof. unfold spectrum_keys. destruct b; destruct (Z.ltb_spec lighter sz) as [H1|H1];
+    try (destruct (Z.ltb_spec light sz) as [H|H]); unfold light, lighter in *; cbn; split; intros H0;
+    try (destruct H0 as [Ha Hb]; try contradiction; lia);
+    try (repeat (destruct H0 as [H0|H0]; [discriminate|]); contradiction);
+    try (split; [discriminate|lia]); auto 20. Qed.
 
-Theorem spectrum_always_present (b : bkind) (sz : osize) :
+Theorem spectrum_always_present (b : bkind) (sz : Z) :
   In "native_wngrid" (spectrum_keys b sz) /\ In "native_wlgrid" (spectrum_keys b sz) /\
   In "native_spectrum" (spectrum_keys b sz) /\
   (b <> BNative -> In "binned_spectrum" (spectrum_keys b sz) /\ In "binned_wngrid" (spectrum_keys b sz) /\
                    In "binned_wlgrid" (spectrum_keys b sz) /\ In "binned_wnwidth" (spectrum_keys b sz) /\
                    In "binned_wlwidth" (spectrum_keys b sz)).
-Proof. destruct b; destruct sz; cbn; repeat split; auto 20; intros H; try contradiction; repeat split; auto 20. Qed.
+Proof. unfold spectrum_keys. destruct b; destruct (Z.ltb lighter sz); destruct (Z.ltb light sz); cbn;
+    repeat split; auto 20; intros H; try contradiction; repeat split; auto 20. Qed.
+
+(* the three named sizes *)
+Example named_sizes :
+  spectrum_keys BFlux heavy = ["native_wngrid"; "native_wlgrid"; "native_spectrum"; "binned_spectrum"; "native_wnwidth";
+                               "native_wlwidth"; "binned_tau"; "native_tau"; "binned_wngrid"; "binned_wlgrid";
+                               "binned_wnwidth"; "binned_wlwidth"] /\
+  ~ In "native_tau" (spectrum_keys BFlux light) /\ In "binned_tau" (spectrum_keys BFlux light) /\
+  ~ In "binned_tau" (spectrum_keys BFlux lighter) /\
+  (* the per-contribution dictionaries get size - 3 : only `heavy` keeps (binned) optical depths there *)
+  In "binned_tau" (spectrum_keys BFlux (heavy - 3)) /\ ~ In "native_tau" (spectrum_keys BFlux (heavy - 3)) /\
+  ~ In "binned_tau" (spectrum_keys BFlux (light - 3)) /\ ~ In "binned_tau" (spectrum_keys BFlux (lighter - 3)).
+Proof. cbn. repeat split; auto 20; intros H; repeat (destruct H as [H|H]; [discriminate|]); exact H. Qed.
 
 Local Open Scope R_scope.
 (* wavelength grids are 10000 / wavenumber; the binned wavelength width is the wavenumber width of the SAME bin
